@@ -37,6 +37,8 @@ PERTURB = ("unload", "restart")
 # laws that name one reproduced defect each (see findings/C08.md); everything else is generic
 ROOT_MARKS = ("note-read-recv-cached-only", "readless-publisher-marks-cached-only", "publisher-marks-store-error-ignored")
 DETACHED_RECV = "detached-recv-note-needs-loaded-topic"
+# the marks defects after which the marks REPORTED by {get desc} (not only the cached/stored recv) may differ across a reload
+MARKS_EXPLAIN_DESC = ("readless-publisher-marks-cached-only", "publisher-marks-store-error-ignored")
 
 
 # ---------------------------------------------------------------------------
@@ -264,7 +266,10 @@ def diff_kinds(a_block, b_block, query):
                         dx, dy = kvs(x), kvs(y)
                         for f in dx:
                             if dx[f] != dy.get(f):
-                                kinds.add({"acs": "acs", "seq": "seq", "read": "marks", "recv": "marks", "del": "delid"}.get(f, f))
+                                kinds.add({"acs": "acs", "seq": "seq", "read": "desc-marks", "recv": "desc-marks", "del": "delid"}.get(f, f))
+                                if f in ("read", "recv"):
+                                    # the marks replyGetDesc REPORTS (read, max(recv, read)), and to whom
+                                    kinds.add("desc-marks:S%d" % sid)
                     elif wx[0] == "sub":
                         for rx, ry in zip(wx[1:], wy[1:]):
                             fx, fy = rx.split(":"), ry.split(":")
@@ -339,6 +344,13 @@ def variant_of(sc, views, p, how, vid):
 def compare_variant(sc, base_blocks, var_blocks, p, nins):
     """first request at or after the insertion point whose projection differs: (k, kinds, detail) or None"""
     if p > 0 and nins:
+        vb, va = View(base_blocks[p - 1]), View(var_blocks[p + nins - 1])
+        if vb.loaded and vb.csess != (va.csess if va.loaded else {}):
+            # the perturbation is "the cache is rebuilt by the load path with the SAME sessions attached again" (reload of
+            # Sys/TopicCohC08.v keeps c_sess).  Here a session did not come back: it had been attached by a request that a
+            # plain re-attach does not repeat (a subscriber whose grant lacks J, C07's banned-user-attached finding).  Not
+            # the same experiment: nothing after this point is comparable.
+            return None
         # the reload itself changes no stored row
         kinds, det = diff_kinds(base_blocks[p - 1], var_blocks[p + nins - 1], False)
         if kinds:
@@ -366,15 +378,29 @@ def attribute(sc, views, fails, p, k, kinds, base_blocks, var_blocks, nins, duri
     if p == 0:
         return "reload-visible"
     inc = incoherent(views[p - 1])
-    active = sorted(set(law for law, j, _, key in fails if j < p and key is not None and key in inc))
+    act = sorted(set((law, key) for law, j, _, key in fails if j < p and key is not None and key in inc))
+    active = sorted(set(law for law, _ in act))
+    base = set(x.split(":")[0] for x in kinds)
     if not active:
         fault, kind, args = sc.ops[k]
         if not during and k > 0 and kind == "note" and args[1] == "recv" and views[k - 1].loaded \
-           and args[0] not in views[k - 1].csess and var_blocks[k + nins - 1]["loaded"] == "0" and kinds <= {"marks"}:
+           and args[0] not in views[k - 1].csess and var_blocks[k + nins - 1]["loaded"] == "0" and base <= {"marks", "desc-marks"}:
             return DETACHED_RECV
         return "reload-visible"
-    if all(a in ROOT_MARKS for a in active) and not kinds <= {"marks"}:
-        return "reload-visible"
+    if all(a in ROOT_MARKS for a in active):
+        # what each reproduced marks defect explains (theorems c08_getdesc_same_modulo_recv_lag / c08_reported_marks_reload_invisible):
+        # note-read-recv-cached-only is about the cached recv ITSELF - the stored recv (and {get sub}, which reads the store) may
+        # differ once a later {note recv} is judged against it; what {get desc} REPORTS (read, max(recv, read)) may not.  The two
+        # publisher defects put marks into the cache that the store never got: there {get desc} of THAT user differs too.
+        if not base <= {"marks", "desc-marks"}:
+            return "reload-visible"
+        for x in kinds:
+            if x.startswith("desc-marks:S"):
+                u = sc.sessions.get(int(x.split(":S")[1]))
+                if not any(law in MARKS_EXPLAIN_DESC and key[1] == u for law, key in act):
+                    return "reload-visible"
+        if "marks" not in base:
+            return next(law for law, key in act if law in MARKS_EXPLAIN_DESC)
     return active[0]
 
 
@@ -389,6 +415,43 @@ def probes(rng, sc):
             ops.append(("N", "getdata", [s, 0, 0, 0]))
             ops.append(("N", "getdel", [s, 0, 0, 0]))
     return ops
+
+
+def gen_marks_c08d(ctx, count):
+    """histories aimed at the marks {get desc} reports: the owner publishes, readers send {note recv a} / {note read b}
+    with b above, at and below their received mark (read-above-recv is the trigger of note-read-recv-cached-only),
+    ask {get desc} / {get sub}; the differential reloads right after the notes"""
+    rng = ctx.rng
+    res = []
+    for i in range(count):
+        sc = T.gen_setup(rng, "mk%d" % i, "msg")
+        sids = sorted(sc.sessions)
+        ops = [("N", "sub", [s, "-", 0]) for s in sids]
+        owner_s = [s for s in sids if sc.sessions[s] == 1][0]
+        last = 0
+        for _ in range(rng.randint(2, 4)):
+            for _ in range(rng.randint(1, 3)):
+                ops.append(("N", "pub", [owner_s, 100 + len(ops), 0]))
+                last += 1
+            for s in rng.sample(sids, min(len(sids), rng.randint(1, 3))):
+                r = rng.random()
+                if r < 0.45:
+                    ops.append(("N", "note", [s, "read", rng.randint(max(1, last - 1), last)]))
+                elif r < 0.65:
+                    a = rng.randint(1, last)
+                    ops.append(("N", "note", [s, "recv", a]))
+                    ops.append(("N", "note", [s, "read", rng.choice([a, min(last, a + 1), max(1, a - 1)])]))
+                elif r < 0.8:
+                    ops.append(("N", "note", [s, "recv", rng.randint(1, last)]))
+                else:
+                    ops.append(("N", "leave", [s, 0]))
+                    ops.append(("N", "note", [s, "recv", rng.randint(1, last)]))
+                    ops.append(("N", "sub", [s, "-", 0]))
+                if rng.random() < 0.5:
+                    ops.append(("N", rng.choice(["getdesc", "getdesc", "getsub"]), [s]))
+        sc.ops = ops
+        res.append(sc)
+    return res
 
 
 # ---------------------------------------------------------------------------
@@ -508,7 +571,20 @@ def run(ctx):
     scns = []
     every = {}          # scenario id -> perturb at every position
     guided = set()      # ids of the model-guided permission histories
+    marksd = set()      # ids of the marks histories (gen_marks_c08d)
     replay_ins = None
+    if ctx.replay and json.load(open(ctx.replay))["replay"].get("part") == "chan":
+        # a replay of the channel part
+        from props import c08chan as c08ch
+        ctx.coverage["chan_part"] = c08ch.replay_part(ctx, json.load(open(ctx.replay))["replay"])
+        ctx.coverage.setdefault("trusted_base", [])
+        finish(ctx)
+    if ctx.replay and json.load(open(ctx.replay))["replay"].get("part") == "kinds":
+        # a replay of the p2p part
+        from props import c08kinds as c08k
+        ctx.coverage["p2p_part"] = c08k.replay_part(ctx, json.load(open(ctx.replay))["replay"])
+        ctx.coverage.setdefault("trusted_base", [])
+        finish(ctx)
     if ctx.replay and json.load(open(ctx.replay))["replay"].get("part") == "desc":
         # a replay of the description/tags part
         from props import c08desc as c08d
@@ -550,6 +626,10 @@ def run(ctx):
             for sc in T.gen_scenarios(ctx, max(1, int(total * share)), profile, faults, nops=(6, 20), prefix="p%d_" % pi):
                 sc.ops = sc.ops + probes(rng, sc)
                 scns.append(sc)
+        for sc in gen_marks_c08d(ctx, 10 if quick else 80):
+            sc.ops = sc.ops + probes(rng, sc)
+            scns.append(sc)
+            marksd.add(sc.id)
         gscns, _, gcov = PERM.gen_guided(ctx, 28 if quick else 150, extra_max=20)
         for sc in gscns:
             sc.ops = sc.ops + probes(rng, sc)
@@ -608,7 +688,7 @@ def run(ctx):
             variants.append((c, scns[0], replay_ins[0], nins, replay_ins[1]))
     else:
         n_every = 3 if quick else 60
-        plain = [sc for sc in scns if sc.id not in guided]
+        plain = [sc for sc in scns if sc.id not in guided and sc.id not in marksd]
         pick_every = set(sc.id for sc in rng.sample(plain, min(n_every, len(plain)))) | set(every)
         for sc in scns:
             n = len(sc.ops)
@@ -626,6 +706,12 @@ def run(ctx):
                 for k, b in cand:
                     reload_after[b] = reload_after.get(b, 0) + 1
                     pos.append((k + 1, PERTURB[(k + len(variants) + len(pos)) % 2]))
+            elif sc.id in marksd:
+                # reload RIGHT AFTER {note} requests (quick: two of them; thorough: every one, both ways)
+                cand = [k + 1 for k, o in enumerate(sc.ops) if o[1] == "note"]
+                if quick:
+                    cand = rng.sample(cand, min(2, len(cand)))
+                pos = [(p, PERTURB[(p + len(variants)) % 2] if quick else None) for p in sorted(cand)]
             elif quick:
                 pos = [(rng.randint(1, n), rng.choice(PERTURB))]
             else:
@@ -776,6 +862,17 @@ def run(ctx):
     if c08desc is not None and not ctx.replay:
         desc_cov = c08desc.run_part(ctx)
 
+    # ---- third part: p2p topics (offline / live {set sub}, name forms, reload)
+    kinds_cov = None
+    if not ctx.replay:
+        from props import c08kinds
+        kinds_cov = c08kinds.run_part(ctx)
+    # ---- fourth part: private / public data of channel-enabled group topics
+    chan_cov = None
+    if not ctx.replay:
+        from props import c08chan
+        chan_cov = c08chan.run_part(ctx)
+
     # ---- coverage
     nt = set()
     kinds_c, codes, faults_seen = {}, {}, {}
@@ -822,6 +919,10 @@ def run(ctx):
     })
     if desc_cov:
         ctx.coverage["desc_part"] = desc_cov
+    if kinds_cov:
+        ctx.coverage["p2p_part"] = kinds_cov
+    if chan_cov:
+        ctx.coverage["chan_part"] = chan_cov
     # ---- branch distribution of the permission requests (labels by the extracted classifier perm_branch_c08c on the
     # model's state; model and implementation agree on every reply, stored row and cached mode of these histories
     # unless a correspondence mismatch is reported above)
